@@ -78,8 +78,8 @@ theorem chargeable_attempts_irrelevant (feeOn : Bool) (s : St) (t : Txn) (w w' :
 -- non-vacuity: a failing call that had attempted a write and a transfer is applied with status `failed`
 def exS2 : St := { accts := [(3, ⟨1000, 4⟩), (7, ⟨5000, 0⟩)], store := [(1, 11)] }
 def exT2 : Txn := { sender := 3, to := 7, toValid := true, value := 100, fee := 10, nonce := 5, typ := .sc }
-example : (step true exS2 exT2 (.chargeable [.put 2 22] [⟨7, 9, 40, true⟩] [])).2 = .failed := by decide
-example : (step true exS2 exT2 (.chargeable [.put 2 22] [⟨7, 9, 40, true⟩] [])).1.accts =
+example : (step true exS2 exT2 (.chargeable [.put 2 22] [⟨7, 9, 40, true, false⟩] [])).2 = .failed := by decide
+example : (step true exS2 exT2 (.chargeable [.put 2 22] [⟨7, 9, 40, true, false⟩] [])).1.accts =
     [(3, ⟨990, 5⟩), (7, ⟨5000, 0⟩), (minerSC, ⟨10, 0⟩)] := by decide
 
 end ZChain.Ledger
